@@ -1081,7 +1081,7 @@ def systematic_api(ctx, kind):
     if kind == "c13":
         pieces = ["x", "\n", "\r\n", ""]
         texts = [a + b for a in pieces for b in pieces] + pieces + ["y" * 31 + "\n", "y" * 40 + "\n", "y" * 30 + "\n"]
-        methods = ["w", "wl", "f"]
+        methods = ["w", "wl", "f", "fc"]
         chunkings = [[(m, t)] for m in methods for t in texts]
         chunkings += [[(m1, t1), (m2, t2)] for m1 in methods for m2 in methods for t1 in pieces + ["x\n"] for t2 in pieces + ["y", "z" * 32 + "\n", "z" * 29 + "\n"]]
         if not q:
